@@ -129,6 +129,8 @@ struct CliCase {
     ignores: Vec<usize>,
     /// Index into `tree` of the one file the diff modifies; `None` = no diff.
     diff: Option<usize>,
+    /// The diff shows the file as renamed (from a path that no longer exists) and edited (`-M`).
+    rename: bool,
 }
 
 fn all_paths() -> Vec<&'static str> {
@@ -142,7 +144,7 @@ fn check_cli(cfg: &Cfg, c: &CliCase, sink: &Sink) {
     let ignores: Vec<&str> = c.ignores.iter().map(|&i| GLOBS[i]).collect();
     let diff_files: Vec<&str> = c.diff.map(|i| vec![tree[i]]).unwrap_or_default();
     let expected = expected_scope(&tree, &globs, &ignores, &diff_files, c.diff.is_some());
-    let input = json!({"cli": true, "tree": c.tree, "globs": c.globs, "ignores": c.ignores, "diff": c.diff});
+    let input = json!({"cli": true, "tree": c.tree, "globs": c.globs, "ignores": c.ignores, "diff": c.diff, "rename": c.rename});
     thread_local! {
         static REPO: Scratch = Scratch::repo("c15");
         static PAIR: TreePair = TreePair::new("c15d");
@@ -150,8 +152,10 @@ fn check_cli(cfg: &Cfg, c: &CliCase, sink: &Sink) {
     REPO.with(|repo| {
         repo.clear();
         repo.write(".gitignore", "ign/\n");
-        for p in &tree {
-            repo.write(p, &file_text(p));
+        for (i, p) in tree.iter().enumerate() {
+            // The file named in the diff carries the padding its diff was made with.
+            let padding = if c.diff == Some(i) { "pad_a = 1\npad_b = 2\npad_c = 3\npad_d = 4\n" } else { "" };
+            repo.write(p, &format!("{padding}{}", file_text(p)));
         }
         // A real git diff that modifies the chosen file (old version: another value).
         let diff = c.diff.map(|i| {
@@ -159,9 +163,13 @@ fn check_cli(cfg: &Cfg, c: &CliCase, sink: &Sink) {
                 pair.scratch.clear();
                 std::fs::create_dir_all(pair.scratch.dir.join("a")).unwrap();
                 std::fs::create_dir_all(pair.scratch.dir.join("b")).unwrap();
-                pair.set_old(tree[i], &file_text(tree[i]).replace("value = 1", "value = 0"));
-                pair.set_new(tree[i], &file_text(tree[i]));
-                pair.diff(0, &[]).unwrap_or_default()
+                // Old side: the same file under its own name, or (rename) under a name that no
+                // longer exists; padded so that git recognises the rename despite the edit.
+                let padding = "pad_a = 1\npad_b = 2\npad_c = 3\npad_d = 4\n";
+                let old_name = if c.rename { format!("{}.old.py", tree[i]) } else { tree[i].to_string() };
+                pair.set_old(&old_name, &format!("{padding}{}", file_text(tree[i]).replace("value = 1", "value = 0")));
+                pair.set_new(tree[i], &format!("{padding}{}", file_text(tree[i])));
+                pair.diff(0, &["-M"]).unwrap_or_default()
             })
         });
         let mut args: Vec<String> = vec!["list".to_string()];
@@ -205,7 +213,7 @@ fn check_cli(cfg: &Cfg, c: &CliCase, sink: &Sink) {
 }
 
 pub fn run(cfg: &Cfg, sink: &Arc<Sink>) -> Report {
-    let mut report = Report::new("cases = directory trees over paths {x.py, a/x.py, b/x.py, b/b/x.py, a/b/y.py, 'sp ace/x.py', d.d/x.py, b/b/b/z.py} (every file holds one block named after its path) × 0..2 positional globs × 0..2 --ignore globs from {*.py, a/**, **/x.py, b/x.py, **, b/*, **/b/**} × {no diff, diff naming any subset of ≤2 files}; library phase over an in-memory tree (all trees of ≤3 paths); CLI phase in real directories with hidden files, a .gitignore'd directory, real `git diff` output and every directory of the tree as current directory; oracle: the set of files with listed blocks equals ((walk ∖ hidden ∖ git-ignored) ∩ globs ∪ files named in the diff) ∖ --ignore, with `**` implied when run without globs and without diff; non-trivial = every case");
+    let mut report = Report::new("cases = directory trees over paths {x.py, a/x.py, b/x.py, b/b/x.py, a/b/y.py, 'sp ace/x.py', d.d/x.py, b/b/b/z.py} (every file holds one block named after its path) × 0..2 positional globs × 0..2 --ignore globs from {*.py, a/**, **/x.py, b/x.py, **, b/*, **/b/**} × {no diff, diff naming any subset of ≤2 files}; library phase over an in-memory tree (all trees of ≤3 paths); CLI phase in real directories with hidden files, a .gitignore'd directory, real `git diff` output (plain edits and rename+edit with -M) and every directory of the tree as current directory; oracle: the set of files with listed blocks equals ((walk ∖ hidden ∖ git-ignored) ∩ globs ∪ files named in the diff) ∖ --ignore, with `**` implied when run without globs and without diff; non-trivial = every case");
     report.assume("globset decides whether a glob matches a path (same crate, default options, as the documented forms are defined by it)");
     let thorough = cfg.tier == Tier::Thorough;
     // Library phase.
@@ -253,7 +261,10 @@ pub fn run(cfg: &Cfg, sink: &Arc<Sink>) -> Report {
                 let mut diffs: Vec<Option<usize>> = vec![None];
                 diffs.extend((0..tree.len()).map(Some));
                 for diff in diffs {
-                    cases.push(CliCase { tree: tree.clone(), globs: globs.clone(), ignores: ignores.clone(), diff });
+                    cases.push(CliCase { tree: tree.clone(), globs: globs.clone(), ignores: ignores.clone(), diff, rename: false });
+                    if diff.is_some() && globs.len() <= 1 {
+                        cases.push(CliCase { tree: tree.clone(), globs: globs.clone(), ignores: ignores.clone(), diff, rename: true });
+                    }
                 }
             }
         }
@@ -274,7 +285,7 @@ pub fn run(cfg: &Cfg, sink: &Arc<Sink>) -> Report {
 pub fn replay(cfg: &Cfg, input: &Value, sink: &Arc<Sink>) {
     let list = |k: &str| -> Vec<usize> { input[k].as_array().map(|a| a.iter().filter_map(|v| v.as_u64().map(|x| x as usize)).collect()).unwrap_or_default() };
     if input.get("cli").is_some() {
-        check_cli(cfg, &CliCase { tree: list("tree"), globs: list("globs"), ignores: list("ignores"), diff: input["diff"].as_u64().map(|x| x as usize) }, sink);
+        check_cli(cfg, &CliCase { tree: list("tree"), globs: list("globs"), ignores: list("ignores"), diff: input["diff"].as_u64().map(|x| x as usize), rename: input["rename"].as_bool().unwrap_or(false) }, sink);
     } else {
         let diff = if input["diff"].is_null() { None } else { Some(list("diff")) };
         check_lib(&LibCase { tree: list("tree"), globs: list("globs"), ignores: list("ignores"), diff }, sink);
